@@ -145,6 +145,36 @@ fn document_unary(operand: Document) -> (r: Document)
       r == doc_unary(if prec(*e.argument) >= prec(*expression) { doc_paren(doc_of(*e.argument)) } else { doc_of(*e.argument) }),  // :unary_operand_parenthesised_unless_it_binds_tighter
 //@end
 
+// ---- expression statements keep their `;` (the parser requires one after every expression statement of a block)
+#[verifier::external_body]
+struct DeclarationStatement { _p: u8 }
+/// the statement type, reduced to its two forms (R6/R7: type parameter and payloads opaque)
+enum Statement {
+  Declaration(Box<DeclarationStatement>),
+  Expression(Box<E>),
+}
+uninterp spec fn doc_declaration(d: DeclarationStatement) -> Document;
+uninterp spec fn doc_text(t: Seq<char>) -> Document;
+#[verifier::external_body]
+fn declaration_statement_to_document(heap: &Heap, comment_store: &CommentStore, stmt: &DeclarationStatement) -> (r: Document)
+  ensures r == doc_declaration(*stmt)
+{ unimplemented!() }
+#[verifier::external_body]
+fn document_text(t: &'static str) -> (r: Document) ensures r == doc_text(t@) { unimplemented!() }
+#[verifier::external_body]
+fn document_concat2(a: Document, b: Document) -> (r: Document) ensures r == doc_concat(seq![a, b]) { unimplemented!() }
+
+//@extract crates/samlang-printer/src/source_printer.rs :: fn statement_to_document
+//@ret r
+//@replace* expr::Statement<()> => Statement ## R7: the statement type is reduced to its two forms
+//@replace* expr::Statement:: => Statement:: ## R1: module path
+//@replace Document::concat(vec![create_doc(heap, comment_store, expr), Document::Text(";")]) => document_concat2(create_doc(heap, comment_store, expr), document_text(";")) ## R3: Document::concat of a two-element vec; enum constructor as a function
+//@contract
+    ensures
+      stmt matches Statement::Expression(e) ==> r == doc_concat(seq![doc_of(**e), doc_text(";"@)]),  // :expression_statement_ends_with_a_semicolon
+      stmt matches Statement::Declaration(d) ==> r == doc_declaration(**d),
+//@end
+
 proof fn canary_must_fail_paren() ensures false { broadcast use axiom_paren_differs; }
 
 } // verus!
